@@ -132,6 +132,35 @@ func (p *Program) GraphOfInl(fi *FuncInfo) *Graph {
 				kCopies = append(kCopies, kc)
 				return kc
 			}
+			// `for helper() {..}` / `if !helper() {..}`: a return of the helper with a constant result continues on the
+			// branch that value selects (a copy of the condition block with that one successor)
+			condNeg, isCond := false, false
+			if e, isE := n.(ast.Expr); isE && i == len(b.Nodes)-1 && len(b.Succs) == 2 {
+				x := ast.Unparen(e)
+				for {
+					u, isU := x.(*ast.UnaryExpr)
+					if !isU || u.Op != token.NOT {
+						break
+					}
+					condNeg = !condNeg
+					x = ast.Unparen(u.X)
+				}
+				isCond = x == ast.Expr(call)
+			}
+			var kBranch [2]*cfg.Block
+			threaded := func(val bool) *cfg.Block {
+				if condNeg {
+					val = !val
+				}
+				idx := 1
+				if val {
+					idx = 0
+				}
+				if kBranch[idx] == nil {
+					kBranch[idx] = &cfg.Block{Nodes: append([]ast.Node{}, k.Nodes...), Succs: []*cfg.Block{k.Succs[idx]}, Kind: k.Kind, Stmt: k.Stmt}
+				}
+				return kBranch[idx]
+			}
 			// the part before: falls into the callee
 			b.Nodes = append(append([]ast.Node{}, b.Nodes[:i]...), p.bindings(info, callee, call)...)
 			// clone the callee's blocks per set of defer statements already executed (a defer inside a branch runs
@@ -183,6 +212,15 @@ func (p *Program) GraphOfInl(fi *FuncInfo) *Graph {
 							}
 						}
 						nb.Succs = []*cfg.Block{contFor()}
+						if isCond && len(ob.Nodes) > 0 {
+							if rs, isR := ob.Nodes[len(ob.Nodes)-1].(*ast.ReturnStmt); isR && len(rs.Results) == 1 {
+								if id, isId := ast.Unparen(rs.Results[0]).(*ast.Ident); isId && (id.Name == "true" || id.Name == "false") {
+									if _, isConst := callee.Pkg.TypesInfo.Uses[id].(*types.Const); isConst {
+										nb.Succs = []*cfg.Block{threaded(id.Name == "true")}
+									}
+								}
+							}
+						}
 					}
 					return nb
 				}
@@ -198,6 +236,12 @@ func (p *Program) GraphOfInl(fi *FuncInfo) *Graph {
 				blocks = append(blocks, kCopies...)
 			} else {
 				blocks = append(blocks, k)
+			}
+			for _, kb := range kBranch {
+				if kb != nil {
+					blocks = append(blocks, kb)
+					queue = append(queue, work{kb, w.stack, 1, w.tail})
+				}
 			}
 			stack2 := append(append([]*FuncInfo{}, w.stack...), callee)
 			for _, c := range cl {
